@@ -48,6 +48,11 @@ class CombinedDataHandler:
             data.update(data[result_cols].fillna(value=0))
             data.loc[indices_with_null_val, "percent_expected_vote"] = 0
 
+        # a unit that has results but no expected vote figure is not reporting yet (it would otherwise be in neither
+        # the reporting nor the nonreporting units and disappear, with its votes, from every table)
+        if "percent_expected_vote" in data.columns:
+            data["percent_expected_vote"] = data["percent_expected_vote"].fillna(0)
+
         self.n_minimum_for_outlier_detection_model = 20
         self.data = data
 
